@@ -282,6 +282,7 @@ def module_variant(case, root):
     if all("emit" in s for s in steps):
         step["emit"] = [e for s in steps for e in s["emit"]]
     out = dict(case, id=case["id"] + "@mod", steps=[step], module_file=path, module_src=src,
+               match_src="\n".join(s["src"] for s in steps),
                tag=(case.get("tag", "") + "|module"))
     return out
 
@@ -328,6 +329,7 @@ def replay_as_modules(cases, workdir, root, env_extra=None, jobs=12, timeout_ms=
     for c in cases:
         if c["id"] in out:
             m = mods.get(c["id"]) or dict(c, id=c["id"] + "@mod", tag=c.get("tag", "") + "|module",
+                                          match_src="\n".join(st["src"] for st in c["steps"]),
                                           steps=[dict(st, src=st["src"].replace("@@", "")) for st in c["steps"]], batched=True)
             rc.append(m)
             rv.append(out[c["id"]])
@@ -371,7 +373,7 @@ def match_finding(prop, case, verdict, findings):
     specific signature matches (input text and observed symptom)."""
     text = "\n".join(s.get("src", "") for s in case.get("steps", [])) if case else ""
     if case and case.get("module_src"):
-        text += "\n" + case["module_src"]
+        text += "\n" + case["module_src"] + "\n" + case.get("match_src", "")
     text += "\n#tag:" + (case.get("tag", "") if case else "")
     for f in findings:
         if f.get("status") != "known" or prop not in f.get("properties", [f.get("property")]):
